@@ -16,4 +16,10 @@ local x, y, z = 1, 2, 3
 x, y.k, z[1] = z, y, x
 for k, v in pairs(t1) do print(k, v) end
 for i = 1, 10, 2 do print(i) end
+local handlers = {
+    ["on_message_received"] = dispatch(registry, "message", payload_of(event)),
+    ['it\'s'] = compute(first_argument, second_argument) + offset_value * scale,
+    [.5] = lookup(table_of_values, index_expression, default_value),
+    [ key_expression ] = { nested = call(with_an_argument, and_another_one) },
+}
 return f(a), (g()), { h }
